@@ -178,7 +178,12 @@ def point_case(draw, tier="quick"):
     op = draw(st.sampled_from(["add", "sub", "mul", "rmul", "div", "neg"]))
     sa, sb = draw(C.scale()), draw(C.scale())
     return {"d": d, "coll": coll, "a": a, "b": b, "op": op, "sa": sa, "sb": sb, "c": draw(st.sampled_from([2, -3, 0.5, -1])),
-            "ufunc": draw(st.booleans()), "bcast": draw(st.booleans())}
+            "ufunc": draw(st.booleans()), "bcast": draw(st.booleans()),
+            # operands at infinity: the vanishing last coordinate replaced by rounding noise (as computed points at infinity have it)
+            "tz": [draw(st.integers(0, len(TINY) - 1)), draw(st.integers(0, len(TINY) - 1))]}
+
+
+TINY = [0.0, 0.0, 0.0, 5e-13, -1e-13, 1.7e-16, -3e-14]
 
 
 def cart(v):
@@ -194,6 +199,12 @@ def run_point(case):
     sa, sb = C.scale_value(case["sa"]), C.scale_value(case["sb"])
     A = np.array(case["a"], dtype=float) * sa
     B = np.array(case["b"], dtype=float) * sb
+    tz = case.get("tz", [0, 0])
+    if len(tz) != 2 or any(not isinstance(k, int) or not 0 <= k < len(TINY) for k in tz):
+        raise Skip("malformed")
+    # the library calls a point "at infinity" when its last coordinate vanishes up to 1e-8 (isinf)
+    A[A[:, -1] == 0, -1] = TINY[tz[0]]
+    B[B[:, -1] == 0, -1] = TINY[tz[1]]
     if coll:
         p = PointCollection(A)
         q = Point(B[0]) if case["bcast"] else PointCollection(B)
@@ -268,7 +279,7 @@ def run_point(case):
 
 def cart_arr(v):
     v = np.asarray(v)
-    if abs(v[-1]) > 1e-12:
+    if abs(v[-1]) > 1e-10:
         return np.real_if_close(v[:-1] / v[-1]), True
     return np.real_if_close(v[:-1]), False
 
@@ -756,8 +767,10 @@ LAWS = [
         lambda c: [c["op"], c["other"], "ufunc" if c["ufunc"] else "operator", "free-axes" if c["spec"]["nfree"] else "bound"],
         {"quick": 1500, "thorough": 30000}, "Tensor op X vs numpy on the arrays; index types of t", shard=4000),
     Law("arith_point", lambda tier: point_case(tier), run_point, lambda c: True,
-        lambda c: [c["op"], "coll" if c["coll"] else "single", "ufunc" if c["ufunc"] else "operator"] + (["has-infinite"] if any(v[-1] == 0 for v in c["a"] + c["b"]) else []),
-        {"quick": 1200, "thorough": 20000}, "point arithmetic vs the affine model (directions at infinity)", shard=4000, mandatory=("has-infinite",)),
+        lambda c: [c["op"], "coll" if c["coll"] else "single", "ufunc" if c["ufunc"] else "operator"] + (["has-infinite"] if any(v[-1] == 0 for v in c["a"] + c["b"]) else [])
+        + (["at-infinity-up-to-rounding:" + c["op"]] if (any(v[-1] == 0 for v in c["a"]) and TINY[c["tz"][0]]) or (c["op"] in ("add", "sub") and any(v[-1] == 0 for v in c["b"]) and TINY[c["tz"][1]]) else []),
+        {"quick": 2400, "thorough": 30000}, "point arithmetic vs the affine model (directions at infinity, also with a last coordinate that vanishes only up to rounding)", shard=600,
+        mandatory=("has-infinite", "at-infinity-up-to-rounding:add", "at-infinity-up-to-rounding:mul", "at-infinity-up-to-rounding:neg")),
     Law("arith_objects", lambda tier: obj_case(tier), run_obj, lambda c: True, lambda c: [c["kind"], c["op"], c["other"]],
         {"quick": 1500, "thorough": 20000}, "Line/Plane/Quadric/Circle/Segment/Polygon +- point = translation; +- array/scalar elementwise", shard=4000),
     Law("getitem", lambda tier: index_case(tier), run_index, idx_nontrivial, lambda c: [index_class(c["index"])],
